@@ -256,7 +256,7 @@ pub fn gen_dcall_line(r: &mut Rng, f: &slac::function::Function) -> String {
         let kinds: Vec<u32> = (0..4).filter(|k| (mask >> k) & 1 == 1).collect();
         match *r.pick(&kinds) {
             0 => V::Boolean(r.chance(1, 2)),
-            1 => if r.chance(1, 8) { s(*r.pick(&["$1", "$0$0", "${1}st", "$$", "a$1b", "$"])) } else if r.chance(1, 2) { s(HAYS[r.usize(HAYS.len())]) } else { V::String(gen_str(r)) },
+            1 => if r.chance(1, 4) { s(*r.pick(&["$1", "$0$0", "${1}st", "$$", "a$1b", "$"])) } else if r.chance(1, 2) { s(HAYS[r.usize(HAYS.len())]) } else { V::String(gen_str(r)) },
             2 => if r.chance(1, 2) { num(*r.pick(IDX)) } else { num(gen_num(r)) },
             _ => { let k = r.below(4); V::Array((0..k).map(|_| gen_small_val(r)).collect()) }
         }
